@@ -85,6 +85,8 @@ def conc_oracle(h, i, line, impl, orc):
     the export pin holds"""
     if orc is None or orc.endswith(" ok") or orc == "ok":
         return None
+    if not (orc.startswith("points=") or orc.startswith("iter ") or line.startswith("pinprune")):
+        return proof_oracle(h, i, line, impl, orc)   # the verdict attached to a proof query, not a schedule
     return "schedule: " + orc
 
 
